@@ -378,7 +378,7 @@ Definition in_domain_for (k : setk) (v : pyval) : bool :=
   in_domain v && match k, v with SetMeta, VNone => false | _, _ => true end.
 (* a time-zone offset with a seconds part has no xsd:dateTime form: no lexical claim for it *)
 Definition lexical_claimed (v : pyval) : bool :=
-  match v with VDateTime d => match tz d with None => true | Some z => (z mod 60 =? 0)%Z end | _ => true end.
+  match v with VDateTime d => match tz d with None => true | Some z => (z mod 60000000 =? 0)%Z end | _ => true end.
 
 (* lexical space of what was written, by value type *)
 Definition decimal_lexical (s : str) : bool := match dec_of_text s with Some _ => true | None => false end.
